@@ -629,6 +629,22 @@ class Model:
 
     def do_input(self, n):
         for _ in range(n):
+            # a scanner that uses the REJECT machinery (REJECT, variable trailing context)
+            # cannot grow its buffer: yytext plus the characters yyinput() has read in this
+            # action stay in it, and the documented fatal error comes when they fill it
+            ob = self.peek()
+            if ob is not None and ob[:2] == ["F", "reject_ovf"]:
+                bs = self.case.get("bufsize") or self.o.get("bufsize") or 0
+                held = 0
+                for ev in reversed(self.out):
+                    if ev[0] == "I":
+                        held += 1
+                    elif ev[0] in ("T", "D"):
+                        break
+                if bs and len(getattr(self, "text", b"")) + held + 2 >= bs:
+                    self.emit(["F", "reject_ovf"])
+                    self.f("reject_buffer_limit")
+                    raise Stop()
             b = self.cur()
             while b is not None and b.pos >= len(b.data):
                 # end of input inside yyinput: yywrap processing first
